@@ -19,7 +19,10 @@ TRUSTED = ["deserialize_value_info_proto: deserialize_type_proto_for_shape / _fo
            "other obligation) and may raise; from_.initializers.values() is the sequence of the dictionary's values, all non-null; the "
            "other serializers called in the function do not touch the initializer field or tensor names (lenient frame); "
            "_maybe_add_quantization_annotation, serialize_value_into, _should_create_value_info_for_value, serialize_node_into are "
-           "opaque (arbitrary result, may raise)"]
+           "opaque (arbitrary result, may raise) in the [initializers] target; in the [inputs/outputs] target graph_proto.input / "
+           ".output / .value_info / .node are pairwise distinct sequences of slots handed out by add(), serialize_value_into(slot, v) "
+           "and serialize_node_into(slot, from_=n) fill the slot from v / n (assumed contracts of the two serializers) and may raise, "
+           "and iterating the graph yields the sequence of its nodes (ghost g_nodes), all non-null"]
 
 
 def add_value_info_target(eng):
